@@ -18,6 +18,26 @@ CHECKS = {
              'values, value_type, caller arrays and np.shares_memory partition compared after each call.',
         note='Exact dyadic/integer data only; float64 caller arrays; Fourier resample and irrational grids not covered. '
              'Trusted: TLC, numpy.shares_memory, the driver projection.'),
+    'C11': dict(
+        spec='H5Store.tla', design='4.6',
+        text='H5Store.tla mirrors HDF5Writer.add stage by stage (counters, dataset growth, index writes, partial effects of '
+             'rejected calls, append sessions); TLC checks LenIsAccepted, IndexInRange, RoundTrip and the action property '
+             'RejectedAddIsInvisible over all histories of <=3 adds (<=2 quick) x 28 parameterisations x option families x '
+             'failure placements x session splits; seeded simulations over 8 option families and 2304 add '
+             'parameterisations are executed on the real writer and a flushed copy of the file is read back through '
+             'HDF5Reader after every step.',
+        note='Data carry tags; only rows addressed by the index table are compared (orphan rows / counters are '
+             'representation). Trusted: TLC, h5py flush+copy snapshot, driver expectations (expected_event).'),
+    'C12': dict(
+        spec='H5Store.tla (reader part)', design='4.6',
+        text='The reader half of H5Store.tla models EventIterator chunk loading/splitting and HDF5Reader index/slice '
+             'dispatch; TLC checks IterAgree, IndexAgree, SliceAgree on every reachable file of the small configuration '
+             '(all slice_range, indices -n..n-1, all None/negative slice spellings, steps 1..n). The real reader is '
+             'executed on those access paths (seeded sample per step in quick, all in thorough) for files produced by '
+             'replayed behaviours incl. append sessions, and FileGenerator replays every closed file over 1-2 files and '
+             'several chunk sizes.',
+        note='FileGenerator count clause deliberately weak (DESIGN 4.6). Files without a particle table are outside the '
+             'domain. Trusted: TLC, driver projection.'),
 }
 
 NOT_APPLICABLE = {
